@@ -32,8 +32,9 @@ from ..engine.normalize import positional
 from ..engine.report import AnalysisError, Run
 from ..engine.resolver import Program, contains_await
 from ..engine.util import find_calls, method_call, nodes_with_call, u
-from ._c06_util import Flow, Org, Tri, cmp_eval, lifted, pruned, result_sites, spliced, transitive_helpers, truth_atom, unawait
-from .c13 import step_classes
+from ._c06_util import (Flow, Org, Tri, cmp_eval, indent_of, lifted, pruned, result_sites, seg, spliced, src_patch, stmt_patch,
+                        transitive_helpers, truth_atom, unawait)
+from .c13 import check_steps, engine_drops_round, step_classes
 from .c19 import check_sync as fallback_sync
 
 EVAL = "timeseries.formula_engine._formula_evaluator"
@@ -762,21 +763,128 @@ def check_3ph(run: Run, prog: Program) -> None:
               node=raw.node, file=raw.file)
 
 
-CONTROLS = [
-    ("FIRST_COMPLETED", EVAL, "return_when=asyncio.ALL_COMPLETED", "return_when=asyncio.FIRST_COMPLETED", "C06.ALL"),
-    ("<= in the sync loop", EVAL, "            while metric_ts < latest_ts:", "            while metric_ts <= latest_ts:", "C06.SYNC"),
-    ("stamped with the wall clock", EVAL, "        return Sample(metric_ts, self._create_method(res))",
-     "        return Sample(datetime.now(), self._create_method(res))", "C06.TS"),
-    ("retry receive in _fetch_next", STEPS,
-     "            _logger.error(\"Failed to fetch next value from %s: %s\", self._name, err)\n",
-     "            _logger.error(\"Failed to fetch next value from %s: %s\", self._name, err)\n            next_value = await self._stream.receive()\n",
-     "C06.ONE"),
-    ("steps before synchronisation", EVAL,
-     "        if self._first_run:\n            metric_ts = await self._synchronize_metric_timestamps(ready_metrics)\n        else:\n            sample = next(iter(ready_metrics)).result()\n            assert sample is not None\n            metric_ts = sample.timestamp\n\n        for step in self._steps:\n            step.apply(eval_stack)\n",
-     "        for step in self._steps:\n            step.apply(eval_stack)\n\n        if self._first_run:\n            metric_ts = await self._synchronize_metric_timestamps(ready_metrics)\n        else:\n            sample = next(iter(ready_metrics)).result()\n            assert sample is not None\n            metric_ts = sample.timestamp\n",
-     "C06.TS"),
-    ("phase 2 read twice", ENGINE, "                phase_3 = await phase_3_rx.receive()", "                phase_3 = await phase_2_rx.receive()", "C06.3PH"),
-]
+def interchange_patch(prog: Program) -> tuple[str, str] | None:
+    """The drain loops of the synchronisation interchanged (`for name: while ts < latest:` with the shared
+    timestamp variable): the canonical way to break "every stream of a lagging group is advanced"."""
+    sy = prog.func(f"{FE}.{SYNC}")
+    for w in (x for x in ast.walk(sy.node) if isinstance(x, ast.While)):
+        if len(w.body) == 1 and isinstance(w.body[0], ast.For) and not w.orelse:
+            f = w.body[0]
+            ind_w = " " * w.col_offset
+            ind_f = " " * f.col_offset
+            head_w = f"while {seg(sy.module, w.test)}:"
+            head_f = f"for {seg(sy.module, f.target)} in {seg(sy.module, f.iter)}:"
+            lines = sy.module.source.splitlines(keepends=True)
+            body = "".join(lines[f.body[0].lineno - 1:(f.end_lineno or f.lineno)])
+
+            def edit(_t: str, ind_w: str = ind_w, ind_f: str = ind_f, head_w: str = head_w, head_f: str = head_f, body: str = body) -> str:
+                return f"{ind_w}{head_f}\n{ind_f}{head_w}\n{body}"
+
+            return src_patch(sy.module, w.lineno, w.end_lineno or w.lineno, edit)
+    return None
+
+
+def build_controls(prog: Program) -> list[tuple[str, str, str, str, str]]:
+    """Seeded in-memory controls, cut out of the live source at structurally located anchors (so they
+    survive renamed locals, changed log texts, introduced locals): each breaks one obligation."""
+    out: list[tuple[str, str, str, str, str]] = []
+
+    def add(name: str, module: str, patch: tuple[str, str] | None, rule: str) -> None:
+        if patch is not None:
+            out.append((name, module, patch[0], patch[1], rule))
+
+    def calls_in(fn: Any, pred: Callable[[ast.Call], bool]) -> list[ast.Call]:
+        return [c for c in ast.walk(fn.node) if isinstance(c, ast.Call) and pred(c)]
+
+    ev = prog.cls(FE)
+    ap = prog.func(f"{FE}.apply")
+    sy = prog.func(f"{FE}.{SYNC}")
+    # ALL: FIRST_COMPLETED instead of ALL_COMPLETED (or a timeout when the default is relied upon)
+    for m in ev.methods.values():
+        ws = calls_in(m, lambda c: u(c.func) in ("asyncio.wait", "wait"))
+        if ws:
+            w = ws[0]
+            kw = next((k for k in w.keywords if k.arg == "return_when"), None)
+            if kw is not None:
+                txt = seg(m.module, kw.value)
+                add("FIRST_COMPLETED", EVAL, src_patch(m.module, kw.value.lineno, kw.value.end_lineno or kw.value.lineno,
+                                                     lambda t, txt=txt: t.replace(txt, "asyncio.FIRST_COMPLETED", 1)), "C06.ALL")
+            else:
+                txt = seg(m.module, w)
+                add("FIRST_COMPLETED", EVAL, stmt_patch(m, w, lambda t, txt=txt: t.replace(
+                    txt, txt.rstrip()[:-1].rstrip().rstrip(",") + ", return_when=asyncio.FIRST_COMPLETED)", 1)), "C06.ALL")
+            break
+    # SYNC: `<` -> `<=` (resp. `>` -> `>=`) in the drain loop test
+    for w in (x for x in ast.walk(sy.node) if isinstance(x, ast.While) and isinstance(x.test, ast.Compare) and len(x.test.ops) == 1):
+        op = w.test.ops[0]
+        sym = {ast.Lt: ("<", "<="), ast.Gt: (">", ">=")}.get(type(op))
+        if sym is not None:
+            l, r = seg(sy.module, w.test.left), seg(sy.module, w.test.comparators[0])
+            add("<= in the sync loop", EVAL, src_patch(sy.module, w.lineno, w.test.end_lineno or w.lineno,
+                                                     lambda t, l=l, r=r, sym=sym: t.replace(seg(sy.module, w.test), f"{l} {sym[1]} {r}", 1)), "C06.SYNC")
+            break
+    # TS: a Sample stamped with the wall clock
+    for m in ev.methods.values():
+        cs = calls_in(m, _is_sample_ctor)
+        if cs:
+            c = cs[-1]
+            ts = positional(c, ["timestamp", "value"]).get("timestamp")
+            if ts is not None:
+                txt = seg(m.module, ts)
+                pre = "timestamp=" if any(k.arg == "timestamp" for k in c.keywords) else ""
+                add("stamped with the wall clock", EVAL, src_patch(
+                    m.module, c.lineno, ts.end_lineno or c.lineno,
+                    lambda t, txt=txt, pre=pre: t.replace(f"({pre}{txt}", f"({pre}datetime.now()", 1)
+                    if f"({pre}{txt}" in t else t.replace(txt, "datetime.now()", 1)), "C06.TS")
+                break
+    # TS: the result of the synchronisation is thrown away (an arbitrary input's timestamp is used)
+    for m in ev.methods.values():
+        for a in (x for x in ast.walk(m.node) if isinstance(x, ast.Assign) and isinstance(x.value, ast.Await)
+                  and isinstance(x.value.value, ast.Call) and _is_sync_call(x.value.value) and isinstance(x.targets[0], ast.Name)):
+            arg = a.value.value.args[0] if a.value.value.args else a.value.value.keywords[0].value  # type: ignore[union-attr]
+            call_txt, arg_txt, tgt = seg(m.module, a.value), seg(m.module, arg), a.targets[0].id  # type: ignore[union-attr]
+            add("synchronised timestamp discarded", EVAL, stmt_patch(
+                m, a, lambda t, c=call_txt, g=arg_txt, v=tgt: f"{indent_of(t)}{c}\n{indent_of(t)}{v} = next(iter({g})).result().timestamp\n"), "C06.TS")
+            break
+    # TS: the steps are evaluated before the synchronisation
+    loops = [x for x in ap.node.body if isinstance(x, ast.For) and "_steps" in u(x.iter)]
+    ifs = [x for x in ap.node.body if isinstance(x, ast.If) and any(isinstance(c, ast.Call) and _is_sync_call(c) for c in ast.walk(x))]
+    if loops and ifs and ifs[0].lineno < loops[0].lineno:
+        lines = ap.module.source.splitlines(keepends=True)
+        i0, i1 = ifs[0].lineno - 1, ifs[0].end_lineno or ifs[0].lineno
+        l0, l1 = loops[0].lineno - 1, loops[0].end_lineno or loops[0].lineno
+        if_txt, mid, loop_txt = "".join(lines[i0:i1]), "".join(lines[i1:l0]), "".join(lines[l0:l1])
+        add("steps before synchronisation", EVAL, src_patch(ap.module, i0 + 1, l1, lambda t: loop_txt + mid + if_txt), "C06.TS")
+    # ONE: a retry receive in the error handler of _fetch_next
+    fnx = prog.func(f"{MF}._fetch_next")
+    for t in (x for x in ast.walk(fnx.node) if isinstance(x, ast.Try)):
+        if t.handlers and any(isinstance(c, ast.Call) and method_call(c, "self._stream", "receive") for b in t.body for c in ast.walk(b)):
+            h = t.handlers[0]
+            last = h.body[-1]
+            tgt = next((u(a.targets[0]) for b in t.body for a in ast.walk(b) if isinstance(a, ast.Assign)), "_retry")
+            add("retry receive in _fetch_next", STEPS, src_patch(
+                fnx.module, last.lineno, last.end_lineno or last.lineno,
+                lambda t_, last=last, tgt=tgt: t_ + f"{' ' * last.col_offset}{tgt} = await self._stream.receive()\n"), "C06.ONE")
+            break
+    # 3PH: one phase read twice, another never
+    ph = prog.func(f"{ENGINE}:FormulaEngine3Phase._run")
+    recs = [c for c in calls_in(ph, lambda c: method_call(c, None, "receive")) if isinstance(c.func.value, ast.Name)]  # type: ignore[union-attr]
+    if len(recs) >= 3:
+        recs.sort(key=lambda c: (c.lineno, c.col_offset))
+        a, b = recs[-1], recs[-2]
+        ta, tb = seg(ph.module, a.func.value), seg(ph.module, b.func.value)  # type: ignore[union-attr]
+        add("phase 2 read twice", ENGINE, stmt_patch(ph, a, lambda t, ta=ta, tb=tb: t.replace(f"{ta}.receive", f"{tb}.receive", 1)), "C06.3PH")
+    # SYNC (shared with C05.ALIGN): the drain loops interchanged
+    add("drain loops interchanged", EVAL, interchange_patch(prog), "C06.SYNC")
+    # TOTAL: Divider without its zero-divisor arm
+    dv = prog.func(f"{STEPS}:Divider.apply")
+    for x in (x for x in ast.walk(dv.node) if isinstance(x, ast.IfExp) and isinstance(x.orelse, ast.BinOp) and isinstance(x.orelse.op, ast.Div)):
+        txt, keep = seg(dv.module, x), seg(dv.module, x.orelse)
+        add("Divider raises on a zero divisor", STEPS, stmt_patch(dv, x, lambda t, txt=txt, keep=keep: t.replace(txt, keep, 1)), "C06.TOTAL")
+        break
+    if len(out) < 8:
+        raise AnalysisError(f"C06: only {len(out)} of 9 seeded controls could be derived from the source ({[o[0] for o in out]})")
+    return out
 
 
 def run_rules(run: Run, prog: Program) -> None:
@@ -787,6 +895,8 @@ def run_rules(run: Run, prog: Program) -> None:
     check_sync(run, prog)
     fallback_sync(run, prog, rule="C06.FSYNC")
     check_3ph(run, prog)
+    # no timestamp is skipped: a step that raises makes FormulaEngine._run drop the whole round
+    check_steps(run, prog, engine_drops_round(run, prog, rule=None), total_rule="C06.TOTAL", only_total=True)
 
 
 def check(run: Run, prog: Program, tier: str) -> str:
@@ -796,15 +906,18 @@ def check(run: Run, prog: Program, tier: str) -> str:
     run.rule("C06.SYNC", "first-run synchronisation drains every stream of every lagging group up to the latest first timestamp")
     run.rule("C06.FSYNC", "fallback synchronisation keeps per-timestamp alignment")
     run.rule("C06.3PH", "three-phase zip: one sample per phase per round, stamped with a received timestamp")
+    run.rule("C06.TOTAL", "no abstract path of a step's apply() raises: FormulaEngine._run drops the round on any exception, "
+             "after one sample was consumed from every input, i.e. the timestamp is skipped (shared with C13.TOTAL)")
     run_rules(run, prog)
     run.floor("C06.ALL", 3)
     run.floor("C06.ONE", 15)
     run.floor("C06.TS", 4)
     run.floor("C06.SYNC", 4)
     run.floor("C06.3PH", 5)
+    run.floor("C06.TOTAL", 20)
     from ..engine.controls import run_controls
 
-    run_controls(run, CONTROLS, run_rules, tier)
+    run_controls(run, [] if run.violations else build_controls(prog), run_rules, tier)
     run.assume("input streams are themselves timestamp-synchronous once aligned (resampler output): one "
                "receive per stream per round then keeps them aligned")
     run.undecided("behaviour when receiver buffers overflow; whether the three per-phase engines stay "
